@@ -305,6 +305,8 @@ def k5_features(ctx, pid: str):
                     continue
                 want = I.mod(s + rr, N)
                 ok = I.aff_eq(ps, want) and I.aff_eq(pe - ps, e - s)
+                if not ok and I.aff_eq(e - s, N) and I.aff_eq(pe - ps, N) and I.path.cons.decide_ge0(ps) is True and I.path.cons.decide_ge0(N - 1 - ps) is True:
+                    ok = True  # a part covering the whole turn denotes every nucleotide wherever it starts
                 out.append(("K5.relocation", name, ok,
                             "a part [s, e) must move to [(s+k) mod n, +width): got [%r, %r), spec [%r, %r)" % (ps, pe, want, want + (e - s))))
                 for fld, wantv in (("strand", STRAND), ("ref", REF), ("ref_db", REFDB)):
